@@ -23,7 +23,7 @@
 From Coq Require Import NArith List Bool PeanoNat String.
 Require Import Model.Base Model.Ir Model.Preprocess Spec.LexSpec Proofs.PreprocessProofs.
 Require Import Model.Labels Gen.LabelSites Proofs.LabelsProofs.
-Require Model.Ast Model.Desugar Spec.ExpandSpec Proofs.DesugarMetas.
+Require Model.Ast Model.Desugar Spec.ExpandSpec Proofs.DesugarMetas Proofs.LabelsDesugar.
 Import ListNotations.
 
 (* --- (1) the pre-processor keeps every offset ------------------------------ *)
@@ -116,6 +116,21 @@ Theorem C04_desugared_ranges_wellformed : forall (P : N -> N -> Prop) env lib bo
   Forall (fun m => P (Model.Ast.m_start m) (Model.Ast.m_end m)) (Spec.ExpandSpec.stmt_metas body').
 Proof. exact (fun P => Proofs.DesugarMetas.desugar_meta_property_inherited (fun m => P (Model.Ast.m_start m) (Model.Ast.m_end m))). Qed.
 Print Assumptions C04_desugared_ranges_wellformed.
+
+(* the end-to-end statement with the desugarer's provenance PROVED: well-formedness
+   is asked of the parsed body only *)
+Theorem C04_labels_wellformed_through_desugaring :
+  forall (P : N -> N -> Prop) env lib body body' (final : list meta) c ls l,
+    Forall (fun m => P (Model.Ast.m_start m) (Model.Ast.m_end m)) (Spec.ExpandSpec.stmt_metas body) ->
+    Model.Desugar.desugar_template env lib body = Model.Desugar.DOk body' ->
+    (forall m, In m final ->
+       In m (map Proofs.LabelsDesugar.ir_meta_of (Spec.ExpandSpec.stmt_metas body')) \/ (m_start m = 0%N /\ m_end m = 0%N)) ->
+    P 0%N 0%N ->
+    (forall m, In m (nodes_of c) -> In m final) ->
+    (forall r, In r (parser_ranges_of c) -> P (fst r) (snd r)) ->
+    labels_of (sources_of c) = Ok ls -> In l ls -> P (l_start l) (l_end l).
+Proof. exact Proofs.LabelsDesugar.labels_wellformed_through_desugaring. Qed.
+Print Assumptions C04_labels_wellformed_through_desugaring.
 
 Theorem C04_synthesised_statements_have_no_file : forall c,
   guarded_constructor c = true ->
